@@ -294,6 +294,12 @@ def rand_call(rng, n=None, lazy=None):
             d["fill"] = rng.choice([0, -7, NAN])
         if rng.random() < 0.3:
             d["expected"] = list(range(k + rng.randint(0, 2)))
+            if rng.random() < 0.4 and func not in ("median", "nanmedian", "quantile"):
+                # a RangeIndex that may be shorter than the labels present (labels beyond it are dropped)
+                d["expected"] = list(range(max(1, k + rng.randint(-2, 1))))
+                d["expected_range"] = True
+                if d.get("fill") is None and not (isinstance(func, str) and "arg" in func):
+                    d["fill"] = rng.choice([0, -7])
         if lazy_:
             d["method"] = rng.choice([None, None, "map-reduce", "cohorts", "blockwise"])
             if d["method"] == "blockwise" or func in ("median", "nanmedian", "quantile"):
